@@ -207,69 +207,73 @@ Definition draw_meas (P nq target store : nat) : (str * str * str) * nat :=
   if target <? store + nq then ((t, m, set_at mi cMD b), w)
   else ((set_at mi cMU t, m, b), w).
 
-(* ---- _update_* ---- *)
+(* ---- _update_* : the body of each `for wire in wire_list` loop is a named per-wire function ---- *)
 Definition update_singleq (parts : str * str * str) (wl : list nat) (st : state) : state :=
   let '(t, m, b) := parts in emit (fun _ => app3 t m b) wl st.
 
-Definition update_cbridge (nq target store : nat) (wl : list nat) (width : nat) (st : state) : state :=
+Definition cbridge_wire (nq target store width : nat) (w : nat) (x : wire) : wire :=
   let h := width / 2 in
   let bar := rep h cSP ++ [cDV] ++ rep h cSP in
   let mid_bar := rep h cH ++ [cDV] ++ rep h cH in
   let mid_bar_cl := rep h cDH ++ [cDV] ++ rep h cDH in
   let cl_conn := rep h cDH ++ [cST] ++ rep h cDH in
-  emit (fun w x =>
-          if w =? target then x
-          else if w =? nq + store then app3 bar cl_conn (rep (length bar) cSP) x
-          else app3 bar (if nq <? w then mid_bar_cl else mid_bar) bar x) wl st.
+  if w =? target then x
+  else if w =? nq + store then app3 bar cl_conn (rep (length bar) cSP) x
+  else app3 bar (if nq <? w then mid_bar_cl else mid_bar) bar x.
+
+Definition update_cbridge (nq target store : nat) (wl : list nat) (width : nat) (st : state) : state :=
+  emit (cbridge_wire nq target store width) wl st.
 
 (* wire_list = range(lo, hi+1) with lo/hi the smallest/largest target, so  i == 0  is  wire == lo
    and  i == len(wire_list)-1  is  wire == hi *)
-Definition update_target_multiq (fx : bool) (targets : list nat) (controls : option (list nat))
-           (wl : list nat) (p : mparts) (st : state) : state :=
+Definition target_wire (fx : bool) (targets : list nat) (controls : option (list nat)) (p : mparts)
+           (w : nat) (x : wire) : wire :=
   let lo := lmin targets in
   let hi := lmax targets in
-  emit (fun w x =>
-          if length targets =? 1 then app3 (p_top p) (p_lab p) (p_bot p) x
-          else if (w =? lo) && mem w targets then app3 (p_mid p) (p_lab p) (p_bot p) x
-          else if (w =? hi) && mem w targets then app3 (p_top p) (p_conn p) (p_mid p) x
-          else if fx && has_controls controls && mem w (ctl_list controls)          (* FIX *)
-               then app3 (p_mid p) (set_at (length (p_mid p) / 2) cND (p_mid p)) (p_mid p) x
-          else app3 (p_mid p) (p_mid p) (p_mid p) x) wl st.
+  if length targets =? 1 then app3 (p_top p) (p_lab p) (p_bot p) x
+  else if (w =? lo) && mem w targets then app3 (p_mid p) (p_lab p) (p_bot p) x
+  else if (w =? hi) && mem w targets then app3 (p_top p) (p_conn p) (p_mid p) x
+  else if fx && has_controls controls && mem w (ctl_list controls)          (* FIX *)
+       then app3 (p_mid p) (set_at (length (p_mid p) / 2) cND (p_mid p)) (p_mid p) x
+  else app3 (p_mid p) (p_mid p) (p_mid p) x.
 
-Definition update_qbridge (fx : bool) (targets cs : list nat) (wl : list nat) (width : nat)
-           (istop : bool) (st : state) : state :=
+Definition update_target_multiq (fx : bool) (targets : list nat) (controls : option (list nat))
+           (wl : list nat) (p : mparts) (st : state) : state :=
+  emit (target_wire fx targets controls p) wl st.
+
+Definition qbridge_wire (fx : bool) (targets cs : list nat) (first last_ width : nat) (istop : bool)
+           (w : nat) (x : wire) : wire :=
   let h := width / 2 in
   let bar := rep h cSP ++ [cV] ++ rep (h - 1) cSP in
   let mid_bar := rep h cH ++ [cV] ++ rep (h - 1) cH in
   let node := rep h cH ++ [cND] ++ rep (h - 1) cH in
   let blank := rep (length bar) cSP in
-  let first := hd 0 wl in
-  let last_ := last wl 0 in
-  let lo := lmin targets in
-  let hi := lmax targets in
-  emit (fun w x =>
-          let skip := if fx then (lo <=? w) && (w <=? hi)      (* FIX: wire in box span *)
-                      else mem w targets in
-          if skip then x
-          else if mem w cs then
-            if (w =? first) || (w =? last_)
-            then app3 (if istop then blank else bar) node (if istop then bar else blank) x
-            else app3 bar node bar x
-          else app3 bar mid_bar bar x) wl st.
+  let skip := if fx then (lmin targets <=? w) && (w <=? lmax targets)      (* FIX: wire in box span *)
+              else mem w targets in
+  if skip then x
+  else if mem w cs then
+    if (w =? first) || (w =? last_)
+    then app3 (if istop then blank else bar) node (if istop then bar else blank) x
+    else app3 bar node bar x
+  else app3 bar mid_bar bar x.
 
-Definition update_swap (P : nat) (wl : list nat) (st : state) : state :=
+Definition update_qbridge (fx : bool) (targets cs : list nat) (wl : list nat) (width : nat)
+           (istop : bool) (st : state) : state :=
+  emit (qbridge_wire fx targets cs (hd 0 wl) (last wl 0) width istop) wl st.
+
+Definition swap_wire (P first last_ : nat) (w : nat) (x : wire) : wire :=
   let width := 4 * P + 1 in
   let h := width / 2 in
   let cross := rep h cH ++ [cX] ++ rep h cH in
   let bar := rep h cSP ++ [cV] ++ rep h cSP in
   let mid_bar := rep h cH ++ [cV] ++ rep h cH in
   let blank := rep (length bar) cSP in
-  let first := hd 0 wl in
-  let last_ := last wl 0 in
-  emit (fun w x =>
-          if w =? last_ then app3 blank cross bar x
-          else if w =? first then app3 bar cross blank x
-          else app3 bar mid_bar bar x) wl st.
+  if w =? last_ then app3 blank cross bar x
+  else if w =? first then app3 bar cross blank x
+  else app3 bar mid_bar bar x.
+
+Definition update_swap (P : nat) (wl : list nat) (st : state) : state :=
+  emit (swap_wire P (hd 0 wl) (last wl 0)) wl st.
 
 (* ---- one iteration of the loop in layout() ---- *)
 Definition gate_text (name : str) (arg_label : option str) : str :=
@@ -358,8 +362,8 @@ Definition add_wire_labels (sty : style) (nq nc : nat) (st : state) : option sta
       if length st <? length labels then None            (* IndexError *)
       else
         let maxlen := fold_right Nat.max 0 (map (@length N) labels) in
-        Some (fold_left (fun s il => upd (fst il) (label_wire maxlen (snd il)) s)
-                        (combine (seq 0 (length labels)) labels) st)
+        (* for i, label in enumerate(default_labels) *)
+        Some (emit (fun i => label_wire maxlen (nth i labels [])) (seq 0 (length labels)) st)
   end.
 
 (* ---- input domain ---- *)
